@@ -817,8 +817,8 @@ func outlineColor(tokens []Token, _ string) pr.CssProperty {
 		token := tokens[0]
 		if getKeyword(token) == "invert" {
 			return pr.Color{Type: pa.ColorCurrentColor}
-		} else {
-			return pr.Color(pa.ParseColor(token))
+		} else if c := pa.ParseColor(token); !c.IsNone() {
+			return pr.Color(c)
 		}
 	}
 	return nil
@@ -860,6 +860,8 @@ func color(tokens []Token, _ string) pr.DeclaredValue {
 	result := pa.ParseColor(token)
 	if result.Type == pa.ColorCurrentColor {
 		return pr.Inherit
+	} else if result.IsNone() { // invalid color
+		return nil
 	} else {
 		return pr.Color(result)
 	}
